@@ -719,7 +719,8 @@ Section Job.
 
   (* ================================================================ the project *)
   Definition plain (sc : script) : Prop :=
-    s_tol sc = false /\ s_always sc = false /\ s_stamp sc = false /\ s_ifcreate sc = [].
+    s_tol sc = false /\ s_always sc = false /\ s_stamp sc = false /\
+    forall n, In n (s_ifcreate sc) -> watched n = true /\ reserved n = false.
 
   Definition script_of (fl : file) : script :=
     match f_script fl with Some sc => sc | None => default_script end.
@@ -1423,22 +1424,39 @@ Section Job.
 
   Lemma script_body_plain rec envc t sc w w' evs rc out :
     plain sc -> script_body rec envc t sc w = Ret (w', evs, rc, out) ->
-    exists rc_deps,
+    exists rc_deps w1,
       match s_deps sc with
-      | [] => w' = w /\ rc_deps = 0%Z
-      | _ :: _ => exists e1, rec envc MIfChange (s_deps sc) w = Ret (w', e1, rc_deps)
-      end /\ (rc_deps <> 0%Z -> rc <> 0%Z).
+      | [] => w1 = w /\ rc_deps = 0%Z
+      | _ :: _ => exists e1, rec envc MIfChange (s_deps sc) w = Ret (w1, e1, rc_deps)
+      end /\
+      (rc_deps <> 0%Z -> rc <> 0%Z /\ w' = w1) /\
+      (rc_deps = 0%Z -> w' = fst (ifcreate_cmd t (s_ifcreate sc) w1) /\
+                        (snd (ifcreate_cmd t (s_ifcreate sc) w1) <> 0%Z -> rc <> 0%Z)).
   Proof.
-    intros (Ht & Ha & Hs & Hi) H. unfold script_body in H. rewrite Ht, Ha, Hs, Hi in H. cbn [ifcreate_cmd] in H.
+    intros (Ht & Ha & Hs & _) H. unfold script_body in H. rewrite Ht, Ha, Hs in H.
+    assert (Htail : forall w1 e1, (let '(w2, rci) := ifcreate_cmd t (s_ifcreate sc) w1 in
+                      if negb (Z.eqb rci 0) then Ret (w2, e1, rci, None)
+                      else match (if s_cat sc then concat_data w2 (s_deps sc) else Some []) with
+                           | None => Ret (w2, e1, 1%Z, None)
+                           | Some body => Ret (w2, e1, s_exit sc, Some (s_payload sc :: body))
+                           end) = Ret (w', evs, rc, out) ->
+                     w' = fst (ifcreate_cmd t (s_ifcreate sc) w1) /\
+                     (snd (ifcreate_cmd t (s_ifcreate sc) w1) <> 0%Z -> rc <> 0%Z)).
+    { intros w1 e1 X. destruct (ifcreate_cmd t (s_ifcreate sc) w1) as [w2 rci]. cbn [fst snd].
+      destruct (Z.eqb rci 0) eqn:E0; cbn [negb] in X.
+      - apply Z.eqb_eq in E0. split; [|intro Y; contradiction].
+        destruct (if s_cat sc then concat_data w2 (s_deps sc) else Some []); injection X as <- _ _ _; reflexivity.
+      - injection X as <- _ <- _. split; [reflexivity|]. intros _. apply Z.eqb_neq. exact E0. }
     destruct (s_deps sc) as [|d0 ds] eqn:Ed.
-    - cbn [Z.eqb negb andb] in H. exists 0%Z. split; [|intro X; contradiction]. cbn in H.
-      destruct (s_cat sc); injection H as <- _ _ _; auto.
+    - cbn [Z.eqb negb andb] in H. exists 0%Z, w. split; [auto|]. split; [intro X; contradiction|]. intros _.
+      rewrite <- Ed in H. apply (Htail w []). rewrite Ed in *. exact H.
     - destruct (rec envc MIfChange (d0 :: ds) w) as [[[w1 e1] rc1]|] eqn:E; [|discriminate].
-      exists rc1. rewrite andb_true_r in H. destruct (Z.eqb rc1 0) eqn:E0; cbn [negb] in H.
-      + apply Z.eqb_eq in E0. subst rc1. cbn [Z.eqb negb] in H.
-        split; [|intro X; contradiction].
-        destruct (if s_cat sc then concat_data w1 (d0 :: ds) else Some []); injection H as <- _ _ _; exists e1; reflexivity.
-      + injection H as <- _ <- _. split; [exists e1; reflexivity|]. intros _. apply Z.eqb_neq. exact E0.
+      exists rc1, w1. split; [exists e1; reflexivity|]. rewrite andb_true_r in H.
+      destruct (Z.eqb rc1 0) eqn:E0; cbn [negb] in H.
+      + apply Z.eqb_eq in E0. subst rc1. split; [intro X; contradiction|]. intros _. rewrite <- Ed in H. apply (Htail w1 e1).
+        rewrite Ed in *. exact H.
+      + injection H as <- _ <- _. split; [|intro X; apply Z.eqb_neq in E0; contradiction].
+        intros _. split; [apply Z.eqb_neq; exact E0|reflexivity].
   Qed.
 
   Lemma jstep_row ex fr w w' f : In f fr -> jstep ex fr w w' -> get_row (dbs w') f = get_row (dbs w) f.
@@ -1498,7 +1516,68 @@ Section Job.
     destruct (Hu x Hx') as [Vx _]. split; [apply get_row_putw_other; assumption|]. intros d _. tauto.
   Qed.
 
-  (* the script: its redo-ifchange, nothing else that touches the state *)
+  Lemma from_name_found d t f : find_row (rows d) t 1 = Some f -> from_name d t = (d, f).
+  Proof. intro H. unfold from_name. now rewrite H. Qed.
+
+  (* redo-ifcreate n1 n2 ...: one redo-ifcreate edge per name, all of them absent *)
+  Lemma ifc_fold ex f t : ~ In f ex ->
+    forall ns w, JINV w (f :: ex) -> nm w f = t -> find_row (rows (dbs w)) t 1 = Some f ->
+      (forall n, In n ns -> watched n = true /\ reserved n = false /\ exists_b w n = false) ->
+      let wa := set_db w (fold_left (fun d n => let '(d1, s) := from_name d n in
+                                                let '(d2, me) := from_name d1 t in add_dep d2 me DCreated s) ns (dbs w)) in
+      jstep (f :: ex) ex w wa /\ extends w wa /\
+      forall P : fid -> Prop, GOODF w (f :: ex) f P -> GOODF wa (f :: ex) f P.
+  Proof.
+    intros Hf. induction ns as [|n ns IH]; intros w Hj Hnm Hfr Hns; cbv zeta; cbn [fold_left].
+    - rewrite set_db_same. split; [apply jstep_refl; exact Hj|]. split; [apply extends_refl|auto].
+    - destruct (Hns n (or_introl eq_refl)) as (Nw & Nr & Ne).
+      destruct (from_name (dbs w) n) as [d1 s] eqn:Efn.
+      assert (Hfr1 : find_row (rows d1) t 1 = Some f).
+      { destruct (from_name_spec _ _ _ _ Efn) as (_ & X & _). destruct X as (l & Hl & _).
+        rewrite Hl. now apply find_row_app_some. }
+      rewrite (from_name_found d1 t f Hfr1).
+      assert (Hrk1 : DCreated = DModified -> (rk n < rkf rk w f)%nat) by (intro X; discriminate X).
+      assert (Hwt1 : DCreated = DCreated -> watched n = true) by (intros _; exact Nw).
+      destruct (add_edge_step ex f w n DCreated d1 s Hj Hf Nr Hrk1 Hwt1 Efn) as (J & E & V & N & F & G).
+      set (w1 := set_db w (add_dep d1 f DCreated s)) in *.
+      pose proof J as (_ & _ & J1 & _).
+      assert (Vf : valid w f) by (destruct Hj as (_ & _ & _ & Hu); exact (proj1 (Hu f (or_introl eq_refl)))).
+      assert (Hnm1 : nm w1 f = t) by (rewrite (extends_nm w w1 f E Vf); exact Hnm).
+      assert (Hfr1' : find_row (rows (dbs w1)) t 1 = Some f) by exact Hfr1.
+      assert (Hns1 : forall n', In n' ns -> watched n' = true /\ reserved n' = false /\ exists_b w1 n' = false).
+      { intros n' Hn'. destruct (Hns n' (or_intror Hn')) as (A & B & C). split; [exact A|]. split; [exact B|exact C]. }
+      specialize (IH w1 J1 Hnm1 Hfr1' Hns1). cbv zeta in IH.
+      change (dbs w1) with (add_dep d1 f DCreated s) in IH.
+      change (set_db w1 ?X) with (set_db w X) in IH.
+      set (wa := set_db w (fold_left _ ns (add_dep d1 f DCreated s))) in *.
+      destruct IH as (Ja & Ea & Ga).
+      split; [eapply jstep_trans; eauto|]. split; [eapply extends_trans; eauto|].
+      intros P Hg. apply Ga. apply (G P P); [auto|exact Hg|].
+      split; [|intro X; discriminate X]. intros _. cbn [d_source]. rewrite N. unfold exists_b in *.
+      destruct E as (Fs & _). rewrite Fs. exact Ne.
+  Qed.
+
+  Lemma ifcreate_step ex f t w ns :
+    ~ In f ex -> JINV w (f :: ex) -> nm w f = t -> find_row (rows (dbs w)) t 1 = Some f ->
+    (forall n, In n ns -> watched n = true /\ reserved n = false) ->
+    jstep (f :: ex) ex w (fst (ifcreate_cmd t ns w)) /\
+    get_row (dbs (fst (ifcreate_cmd t ns w))) f = get_row (dbs w) f /\
+    forall P : fid -> Prop, GOODF w (f :: ex) f P -> snd (ifcreate_cmd t ns w) = 0%Z ->
+      GOODF (fst (ifcreate_cmd t ns w)) (f :: ex) f P.
+  Proof.
+    intros Hf Hj Hnm Hfr Hns. unfold ifcreate_cmd.
+    destruct ns as [|n0 ns0]; [cbn [fst snd]; split; [apply jstep_refl; exact Hj|split; [reflexivity|auto]]|].
+    destruct (existsb (exists_b w) (n0 :: ns0)) eqn:Ex; cbn [fst snd].
+    - split; [apply jstep_refl; exact Hj|]. split; [reflexivity|]. intros P _ X. discriminate X.
+    - destruct (ifc_fold ex f t Hf (n0 :: ns0) w Hj Hnm Hfr) as (J & E & G).
+      { intros n Hn. destruct (Hns n Hn) as [A B]. split; [exact A|]. split; [exact B|].
+        destruct (exists_b w n) eqn:En; [|reflexivity]. exfalso.
+        assert (existsb (exists_b w) (n0 :: ns0) = true) by (apply existsb_exists; exists n; auto). congruence. }
+      split; [exact J|]. split; [|intros P Hg _; apply G; exact Hg].
+      destruct E as (_ & _ & _ & Hr). apply Hr. destruct Hj as (_ & _ & _ & Hu). exact (proj1 (Hu f (or_introl eq_refl))).
+  Qed.
+
+  (* the script: its redo-ifchange, then its redo-ifcreate; nothing else touches the state *)
   Lemma script_step rec envc ex f t sc w w3 evs rc out :
     rec_spec rec ->
     e_runid envc = R -> e_target envc = Some t -> e_unlocked envc = false -> e_no_oob envc = false ->
@@ -1511,30 +1590,46 @@ Section Job.
     (rc = 0%Z -> GOODF w3 (f :: ex) f (fun _ => False)).
   Proof.
     intros Hrec E1 E2 E3 E4 Hf Hj Hp (Tw & Tr & Tk) Hnm Hfr Hpl Hds Hg H.
-    destruct (script_body_plain rec envc t sc w w3 evs rc out Hpl H) as (rcd & Hm & Hrc).
+    destruct (script_body_plain rec envc t sc w w3 evs rc out Hpl H) as (rcd & w1 & Hm & Hbad & Hgood).
     assert (Hfin : In f (f :: ex)) by now left.
     pose proof Hj as (_ & _ & _ & Hu). destruct (Hu f Hfin) as [Vf _].
-    destruct (s_deps sc) as [|d0 ds] eqn:Ed.
-    - destruct Hm as [-> _]. split; [apply jstep_refl; exact Hj|]. split; [reflexivity|intros _; exact Hg].
-    - destruct Hm as (e1 & Hm). rewrite <- Ed in Hm, Hds.
-      assert (Hpre : build_pre envc (f :: ex) (s_deps sc) w).
-      { split; [exact E1|]. split; [exact Hj|]. split; [exact Hp|]. split.
-        - intros d Hd. destruct (Hds d Hd) as (A & B & C). split; [exact A|]. split; [exact B|].
-          intros x [<-|Hx]; [unfold rkf; rewrite Hnm; exact C|]. specialize (Tk x Hx). lia.
-        - right. exists t, f, ex. split; [exact E2|]. split; [exact E3|]. split; [exact E4|]. split; [reflexivity|].
-          split; [exact Hf|]. split; [exact Hfr|]. intros d Hd. exact (proj2 (proj2 (Hds d Hd))). }
-      destruct (Hrec envc (f :: ex) (s_deps sc) w w3 e1 rcd Hpre Hm) as (wa & Hfront & Jrun & Hok).
-      unfold front_post in Hfront. rewrite E2 in Hfront. destruct (Hfront f ex eq_refl) as (Jf & Ext & Hgf).
-      pose proof Jf as (_ & _ & Ja & _).
-      split; [eapply jstep_trans; [exact Jf|]; eapply jstep_weaken; [|exact Jrun]; intros x Hx; now right|].
-      split.
-      { rewrite (jstep_row (f :: ex) (f :: ex) wa w3 f Hfin Jrun). destruct Ext as (_ & _ & _ & Hr). apply Hr. exact Vf. }
-      intro Hrc0. assert (Hrcd : rcd = 0%Z) by (destruct (Z.eq_dec rcd 0) as [X|X]; [exact X|exfalso; exact (Hrc X Hrc0)]).
-      specialize (Hok Hrcd). specialize (Hgf _ Hg).
-      pose proof (GOODF_jstep wa w3 (f :: ex) (f :: ex) f _ Hfin Ja Jrun Hgf) as Hg3.
-      eapply GOODF_weaken; [|exact Hg3]. intros x [[]|(d & Hd & Hfx)].
-      left. destruct (Hok d Hd) as (g & Hfg & Hokg).
-      destruct Jrun as (Jn & _). pose proof (NAMES_find wa w3 d x Jn Hfx) as Hfx3. rewrite Hfx3 in Hfg. injection Hfg as <-. exact Hokg.
+    (* the nested command *)
+    assert (Hdeps : jstep (f :: ex) ex w w1 /\ get_row (dbs w1) f = get_row (dbs w) f /\
+                    (rcd = 0%Z -> GOODF w1 (f :: ex) f (fun _ => False))).
+    { destruct (s_deps sc) as [|d0 ds] eqn:Ed.
+      - destruct Hm as [-> _]. split; [apply jstep_refl; exact Hj|]. split; [reflexivity|intros _; exact Hg].
+      - destruct Hm as (e1 & Hm). rewrite <- Ed in Hm, Hds.
+        assert (Hpre : build_pre envc (f :: ex) (s_deps sc) w).
+        { split; [exact E1|]. split; [exact Hj|]. split; [exact Hp|]. split.
+          - intros d Hd. destruct (Hds d Hd) as (A & B & C). split; [exact A|]. split; [exact B|].
+            intros x [<-|Hx]; [unfold rkf; rewrite Hnm; exact C|]. specialize (Tk x Hx). lia.
+          - right. exists t, f, ex. split; [exact E2|]. split; [exact E3|]. split; [exact E4|]. split; [reflexivity|].
+            split; [exact Hf|]. split; [exact Hfr|]. intros d Hd. exact (proj2 (proj2 (Hds d Hd))). }
+        destruct (Hrec envc (f :: ex) (s_deps sc) w w1 e1 rcd Hpre Hm) as (wa & Hfront & Jrun & Hok).
+        unfold front_post in Hfront. rewrite E2 in Hfront. destruct (Hfront f ex eq_refl) as (Jf & Ext & Hgf).
+        pose proof Jf as (_ & _ & Ja & _).
+        split; [eapply jstep_trans; [exact Jf|]; eapply jstep_weaken; [|exact Jrun]; intros x Hx; now right|].
+        split.
+        { rewrite (jstep_row (f :: ex) (f :: ex) wa w1 f Hfin Jrun). destruct Ext as (_ & _ & _ & Hr). apply Hr. exact Vf. }
+        intro Hrcd. specialize (Hok Hrcd). specialize (Hgf _ Hg).
+        pose proof (GOODF_jstep wa w1 (f :: ex) (f :: ex) f _ Hfin Ja Jrun Hgf) as Hg3.
+        eapply GOODF_weaken; [|exact Hg3]. intros x [[]|(d & Hd & Hfx)].
+        left. destruct (Hok d Hd) as (g & Hfg & Hokg).
+        destruct Jrun as (Jn & _). pose proof (NAMES_find wa w1 d x Jn Hfx) as Hfx3. rewrite Hfx3 in Hfg. injection Hfg as <-. exact Hokg. }
+    destruct Hdeps as (J1 & Hrow1 & Hg1).
+    destruct (Z.eq_dec rcd 0) as [E0|E0].
+    - (* redo-ifcreate *)
+      destruct (Hgood E0) as [Hw3 Hrci]. pose proof J1 as (Jn1 & _ & Jj1 & _).
+      assert (Vf1 : valid w1 f) by (destruct Jj1 as (_ & _ & _ & Hu1); exact (proj1 (Hu1 f Hfin))).
+      assert (Hnm1 : nm w1 f = t) by (rewrite (jstep_nm _ _ w w1 f J1 Vf); exact Hnm).
+      assert (Hfr1 : find_row (rows (dbs w1)) t 1 = Some f) by (eapply NAMES_find; eauto).
+      destruct Hpl as (_ & _ & _ & Hic).
+      destruct (ifcreate_step ex f t w1 (s_ifcreate sc) Hf Jj1 Hnm1 Hfr1 Hic) as (J2 & Hrow2 & Hg2).
+      rewrite <- Hw3 in J2, Hrow2, Hg2.
+      split; [eapply jstep_trans; eauto|]. split; [congruence|].
+      intro Hrc0. apply Hg2; [apply Hg1; exact E0|].
+      destruct (Z.eq_dec (snd (ifcreate_cmd t (s_ifcreate sc) w1)) 0) as [X|X]; [exact X|exfalso; exact (Hrci X Hrc0)].
+    - destruct (Hbad E0) as [Hrc ->]. split; [exact J1|]. split; [exact Hrow1|]. intro X. contradiction.
   Qed.
 
   (* BuildJob::start_self from the point where the .do file is known *)
@@ -2166,7 +2261,8 @@ Section Final.
 
   (* the project, for a finite list of possible target names *)
   Definition plain_b (sc : script) : bool :=
-    negb (s_tol sc) && negb (s_always sc) && negb (s_stamp sc) && match s_ifcreate sc with [] => true | _ => false end.
+    negb (s_tol sc) && negb (s_always sc) && negb (s_stamp sc)
+    && forallb (fun n => watched n && negb (reserved n)) (s_ifcreate sc).
   Definition proj_t_b (w : world) (t : name) : bool :=
     forallb (fun c =>
       let k := cand_key (updepth w) c in
@@ -2189,9 +2285,10 @@ Section Final.
     - intros t c fl Hw Hr Hc Hfl. specialize (H t (HL t Hw Hr)). unfold proj_t_b in H. rewrite forallb_forall in H. specialize (H c Hc).
       apply andb_true_iff in H as [_ H]. rewrite Hfl in H. apply andb_true_iff in H as [Hp Hd].
       split.
-      + unfold plain_b in Hp. destruct (s_ifcreate (script_of fl)) eqn:Ei; [|rewrite andb_false_r in Hp; discriminate].
-        rewrite andb_true_r in Hp. apply andb_true_iff in Hp as [Hp A3]. apply andb_true_iff in Hp as [A1 A2].
-        unfold plain. rewrite Ei. repeat split; now apply negb_true_iff.
+      + unfold plain_b in Hp. apply andb_true_iff in Hp as [Hp A4]. apply andb_true_iff in Hp as [Hp A3]. apply andb_true_iff in Hp as [A1 A2].
+        unfold plain. split; [now apply negb_true_iff|]. split; [now apply negb_true_iff|]. split; [now apply negb_true_iff|].
+        intros n Hn. rewrite forallb_forall in A4. specialize (A4 n Hn). apply andb_true_iff in A4 as [B1 B2].
+        split; [exact B1|now apply negb_true_iff].
       + intros d Hd'. rewrite forallb_forall in Hd. specialize (Hd d Hd').
         apply andb_true_iff in Hd as [Hd B3]. apply andb_true_iff in Hd as [B1 B2].
         split; [now apply negb_true_iff in B1|]. split; [now apply negb_true_iff in B2|now apply Nat.ltb_lt in B3].
